@@ -117,4 +117,128 @@ var corpusCases = []corpusCase{
 		}
 		r.o.Count("corpus:reentrant-dao-seek")
 	}},
+	// No bleed between contracts: contract 5 next to contracts whose little-endian id bytes contain 05
+	// (1285 = 05 05 00 00, 1280 = 00 05 00 00, 0x05000000, 0x01000005), a native (negative) id, the same
+	// id under the other storage prefix byte, and raw keys that are proper prefixes of the contract
+	// prefix. Every scan of contract 5 (whole contract, sub-prefix, both directions, Seek / SeekAsync /
+	// Find with every option word) must show contract 5's items only; then the same for contract -1
+	// and for contract 5 under prefix byte 0x71 (the DAO of a node created during state sync).
+	{allKinds, func(r *runner) {
+		r.line("new 0 "+r.w.nodes[0].kind, "ok")
+		item := func(sp byte, id int32, tail ...byte) []byte { return append(contractPrefix(sp, id), tail...) }
+		r.opChangeSet(0, []kv{
+			{item(0x70, 5), []byte{1}}, {item(0x70, 5, 0), []byte{2}}, {item(0x70, 5, 5, 0, 0, 0), []byte{3}},
+			{item(0x70, 1285), []byte{4}}, {item(0x70, 1285, 0), []byte{5}}, {item(0x70, 1280, 5), []byte{6}},
+			{item(0x70, 0x05000000), []byte{7}}, {item(0x70, 0x01000005, 0), []byte{8}},
+			{item(0x70, -1, 5), []byte{9}}, {item(0x70, -1), []byte{10}}, {item(0x71, 5, 0), []byte{11}},
+			{[]byte{0x70, 5, 0, 0}, []byte{12}}, {[]byte{0x70, 5}, []byte{13}}, {[]byte{0x70}, []byte{14}},
+		})
+		r.w.addLayer(0, false)
+		r.line("layer 1 0 0", "ok")
+		r.opPut(1, item(0x70, 5, 0xff), []byte{15}, true)
+		r.opPut(1, item(0x70, 6), []byte{16}, false)
+		r.opDel(1, item(0x70, 5, 0), true)
+		r.opPut(1, item(0x70, 4, 0xff, 0xff), []byte{17}, false)
+		scan := func(id int) {
+			for _, bw := range []bool{false, true} {
+				r.opDaoSeek(id, seekRange{bw: bw}, false, reNone)
+				r.opDaoSeek(id, seekRange{bw: bw}, true, reNone)
+				r.opDaoSeek(id, seekRange{pfx: []byte{5}, bw: bw}, true, reNone)
+				r.opDaoSeek(id, seekRange{start: []byte{5}, bw: bw}, false, reNone)
+				r.opDaoSeek(id, seekRange{bw: bw, lim: 2}, bw, reNone)
+				for _, opts := range append(append([]int64{}, findGoodOpts[1:]...), findBadOpts...) {
+					if bw {
+						opts |= istorage.FindBackwards
+					}
+					r.opFind(id, nil, opts, 0)
+				}
+				r.opFind(id, []byte{5}, 0, 0)
+				r.opFind(id, []byte{5, 0}, istorage.FindRemovePrefix, 1)
+			}
+		}
+		scan(1)
+		setContract(-1, 5, 0x70)
+		scan(1)
+		setContract(1285, 5, 0x70)
+		scan(1)
+		// a DAO working under the temporary storage prefix
+		setContract(5, 1285, 0x71)
+		r.w.addLayer(1, true)
+		r.line("layer 2 1 1", "ok")
+		r.opPut(2, item(0x71, 5, 1), []byte{18}, true)
+		scan(2)
+		r.opGet(2, item(0x70, 5, 0xff))
+		setContract(5, 6, 0x70)
+		r.o.Count("corpus:dao-no-bleed")
+	}},
+	// A scan stopped between its two sections with a batch and whole flushes inside its window: the
+	// minimal mixed-generation scan (known finding seek-torn-by-write-and-flush: B of the first
+	// generation next to C of the second) — every single key still carries a value it had during the
+	// window, which is what the window oracle and the model's seekSplit demand; a deletion that is
+	// flushed during the window; a reader behind its own private layer.
+	{allKinds, func(r *runner) {
+		r.line("new 0 "+r.w.nodes[0].kind, "ok")
+		key := func(b ...byte) []byte { return append(bytes.Clone(daoPrefix), b...) }
+		r.opChangeSet(0, []kv{{key('C'), []byte{0}}, {key('D'), []byte{0}}})
+		r.w.addLayer(0, false)
+		r.line("layer 1 0 0", "ok")
+		r.opPut(1, key('A'), []byte{1}, false)
+		r.opPut(1, key('B'), []byte{1}, false)
+		for _, async := range []bool{false, true} {
+			for _, bw := range []bool{false, true} {
+				r.splitBegin(1, seekRange{pfx: daoPrefix, bw: bw, cut: async}, async)
+				r.opChangeSet(1, []kv{{key('B'), []byte{2}}, {key('C'), []byte{2}}})
+				r.opPersist(1, false)
+				r.opDel(1, key('D'), false)
+				r.opPersist(1, true)
+				r.opPut(1, key('A'), []byte{3}, false)
+				r.splitEnd()
+				r.opSeek(1, seekRange{pfx: daoPrefix, bw: bw})
+				r.opChangeSet(1, []kv{{key('B'), []byte{1}}, {key('D'), []byte{0}}})
+			}
+		}
+		r.w.addLayer(1, true)
+		r.line("layer 2 1 1", "ok")
+		r.opPut(2, key('E'), []byte{5}, false)
+		r.opDel(2, key('A'), false)
+		r.splitBegin(2, seekRange{pfx: daoPrefix}, false)
+		r.opChangeSet(1, []kv{{key('A'), []byte{6}}, {key('E'), []byte{6}}, {key('F'), []byte{6}}, {key('C'), nil}})
+		r.opPersist(1, false)
+		r.splitEnd()
+		r.opSeek(2, seekRange{pfx: daoPrefix})
+		r.o.Count("corpus:split-seek")
+	}},
+	// SeekGC deleting under the cursor: runs of adjacent keys all deleted, every second one deleted,
+	// backwards, with an early stop on a deleted / on a kept item, on the bare backend and on a layer.
+	{allKinds, func(r *runner) {
+		r.line("new 0 "+r.w.nodes[0].kind, "ok")
+		var es []kv
+		for i := 0; i < 12; i++ {
+			es = append(es, kv{[]byte{0x70, 1, byte(i)}, []byte{byte(i)}})
+		}
+		es = append(es, kv{[]byte{0x70, 1}, []byte{0xaa}}, kv{[]byte{0x70, 2}, []byte{0xbb}}, kv{[]byte{0x70, 0}, []byte{0xcc}})
+		r.opChangeSet(0, es)
+		all := seekRange{pfx: []byte{0x70}}
+		r.opSeekGC(0, seekRange{pfx: []byte{0x70, 1}, start: []byte{3}}, 2)
+		r.opSeek(0, all)
+		r.opSeekGC(0, seekRange{pfx: []byte{0x70, 1}, bw: true, lim: 3}, 3)
+		r.opSeek(0, all)
+		r.opSeekGC(0, seekRange{pfx: []byte{0x70}, bw: true, start: []byte{1, 7}}, 2)
+		r.opSeek(0, all)
+		r.opChangeSet(0, es)
+		r.opSeekGC(0, seekRange{pfx: []byte{0x70, 1}, lim: 5}, 1) // every visited item deleted, stop at the 5th
+		r.opSeek(0, all)
+		r.opSeekGC(0, seekRange{pfx: []byte{0x70}}, 1) // everything
+		r.opSeek(0, all)
+		r.w.addLayer(0, false)
+		r.line("layer 1 0 0", "ok")
+		r.opChangeSet(0, es[:6])
+		r.opChangeSet(1, es[3:9])
+		r.opDel(1, []byte{0x70, 1, 1}, false)
+		r.opSeekGC(1, seekRange{pfx: []byte{0x70, 1}}, 2)
+		r.opSeek(1, all)
+		r.opSeekGC(1, seekRange{pfx: []byte{0x70, 1}, bw: true, lim: 2}, 3)
+		r.opSeek(1, all)
+		r.o.Count("corpus:seekgc-under-cursor")
+	}},
 }
